@@ -66,11 +66,13 @@ def _batch(job):
     fn = getattr(mod, fn_name)
     out = []
     for idx in indices:
+        t0 = time.time()
         st, res = fork_call(fn, (check, seed, idx))
         if st != "ok":
             out.append({"idx": idx, "error": res})
             continue
         res["idx"] = idx
+        res["wall_ms"] = int((time.time() - t0) * 1000)
         if not res["violations"] and idx not in keep_traces:
             res.pop("trace", None)
         out.append(res)
@@ -87,6 +89,7 @@ class Aggregate:
         self.errors = []
         self.samples = []
         self.digests = {}
+        self.slowest = (0, None)
 
     def add(self, res):
         if "error" in res:
@@ -94,6 +97,8 @@ class Aggregate:
             return
         self.runs += 1
         self.steps += res["steps"]
+        if res.get("wall_ms", 0) > self.slowest[0]:
+            self.slowest = (res["wall_ms"], res["idx"])
         for k, d in res["stats"].items():
             c = self.stats.setdefault(k, Counter())
             c.update(d)
